@@ -86,6 +86,9 @@ func (s *slaveConnection) startDumpFromBinlogPosition(ctx context.Context, serve
 		for {
 			ev, err := s.readBinlogEvent()
 			if err != nil {
+				// the stream ended by itself (master error, EOF, lost connection)
+				// unless it was the stop of this attempt that made the read fail
+				err.unprompted = ctx.Err() == nil
 				_log.Errorf("startDumpFromBinlogPosition readBinlogEvent fail. reason: %v", err)
 				s.errChan <- err
 				close(s.errChan)
